@@ -293,13 +293,15 @@ func (p *Program) handleSignals() chan struct{} {
 
 			case s := <-sig:
 				if atomic.LoadUint32(&p.ignoreSignals) == 0 {
+					// Keep listening afterwards: a filter may swallow the
+					// message, and the next signal must still reach the
+					// program instead of killing the process.
 					switch s {
 					case syscall.SIGINT:
 						p.Send(InterruptMsg{})
 					default:
 						p.Send(QuitMsg{})
 					}
-					return
 				}
 			}
 		}
